@@ -398,3 +398,34 @@ Proof.
 Qed.
 
 End Whole.
+
+(* ------------------------------------------------------------------ *)
+(* where [coherent] comes from                                         *)
+(* ------------------------------------------------------------------ *)
+
+(* The placeholder nodes of a message carry the names that Model/MsgId.v
+   (SetPlaceholdersAndID) gives them: [phs] lists, for every placeholder, its
+   position, base name, String() text and node.  By C10 (names_distinct) equal
+   names mean equal (base name, String()) pairs; if String() is injective on
+   these nodes -- C17's print_injective; an explicit hypothesis here -- equal
+   names mean equal nodes. *)
+From Soy Require Import Proofs.MsgIdProofs.
+
+Definition ph_of (nm : namemap) (x : N * bstr * bstr * node) : node :=
+  let '(p, base, str, n) := x in NMsgPlaceholder p (name_of nm base str) n.
+
+Theorem coherent_of_naming order mbody es nm (phs : list (N * bstr * bstr * node)) :
+  is_perm order -> msg_entries mbody = Ok es -> msg_names order mbody = Ok nm ->
+  (forall p base str n, In (p, base, str, n) phs -> In (base, str) es) ->
+  (forall p base str n p' base' str' n',
+      In (p, base, str, n) phs -> In (p', base', str', n') phs -> str = str' -> n = n') ->
+  coherent (map (ph_of nm) phs).
+Proof.
+  intros Hperm Hes Hnm Hin Hinj p1 p2 name b1 b2 H1 H2.
+  apply in_map_iff in H1 as [[[[q1 base1] str1] n1] [E1 I1]].
+  apply in_map_iff in H2 as [[[[q2 base2] str2] n2] [E2 I2]].
+  cbn [ph_of] in E1, E2. injection E1 as _ En1 ->. injection E2 as _ En2 ->.
+  assert ((base1, str1) = (base2, str2)) as Heq.
+  { apply (names_distinct order mbody es nm Hperm Hes Hnm); [apply (Hin _ _ _ _ I1) | apply (Hin _ _ _ _ I2) | congruence]. }
+  injection Heq as _ Hs. apply (Hinj _ _ _ _ _ _ _ _ I1 I2 Hs).
+Qed.
